@@ -254,6 +254,7 @@ func runC32(c *core.Ctx) {
 	})
 	_ = cg
 	c.Floor("CheckConsensusSigns call sites", nSites, 10)
+	checkVoteOnlyForWitnessedApprover(c, "C32.witnessed-approver", nil)
 	sort.Strings(methods)
 	seen := map[string]string{}
 	okDistinct, okPrefix := true, true
